@@ -22,11 +22,16 @@ type case13 struct {
 	Tables [][2]int
 	Expiry [3]uint64 // Time, MaxUpdateIndex, MinUpdateIndex
 	SHA256 bool
+	Exact  bool // ExactLogMessage: messages (multi-line, no trailing newline) must survive the expiry rewrite verbatim
 }
 
 func times13(t int) (uint64, uint64) { return uint64(10 * t), uint64(45 - 10*t) }
 
 func build13(c *case13) (txns []hx.Txn) {
+	sfx := ""
+	if c.Exact {
+		sfx = "\n second line"
+	}
 	for ti, tab := range c.Tables {
 		t := ti + 1
 		x := hx.Txn{ID: fmt.Sprintf("t%d", t)}
@@ -37,14 +42,14 @@ func build13(c *case13) (txns []hx.Txn) {
 			ta, tb := times13(t)
 			switch tab[ri] {
 			case 1:
-				x.Logs = append(x.Logs, hx.LogOp{Name: name, Msg: fmt.Sprintf("%s@%d", name, t), Time: ta, Old: "o", New: fmt.Sprintf("n%d", t)})
+				x.Logs = append(x.Logs, hx.LogOp{Name: name, Msg: fmt.Sprintf("%s@%d", name, t) + sfx, Time: ta, Old: "o", New: fmt.Sprintf("n%d", t)})
 			case 2:
-				x.Logs = append(x.Logs, hx.LogOp{Name: name, Msg: fmt.Sprintf("%s@%d", name, t), Time: tb, Old: "o", New: fmt.Sprintf("n%d", t)})
+				x.Logs = append(x.Logs, hx.LogOp{Name: name, Msg: fmt.Sprintf("%s@%d", name, t) + sfx, Time: tb, Old: "o", New: fmt.Sprintf("n%d", t)})
 			case 3:
 				x.Logs = append(x.Logs, hx.LogOp{Name: name, Deletion: true, UI: uint64(t - 1)})
 			case 4:
 				// an entry whose update index lies outside its table's own limits (the writer does not tie log indices to the limits)
-				x.Logs = append(x.Logs, hx.LogOp{Name: name, UI: uint64(t + 3), Msg: fmt.Sprintf("%s@%d+3", name, t), Time: ta, Old: "o", New: fmt.Sprintf("m%d", t)})
+				x.Logs = append(x.Logs, hx.LogOp{Name: name, UI: uint64(t + 3), Msg: fmt.Sprintf("%s@%d+3", name, t) + sfx, Time: ta, Old: "o", New: fmt.Sprintf("m%d", t)})
 			}
 		}
 		txns = append(txns, x)
@@ -59,13 +64,14 @@ func run13(c *case13, res *result) {
 		cfg.HashID = reftable.SHA256ID
 		hs = 32
 	}
+	cfg.ExactLogMessage = c.Exact
 	w := mc.NewWorld(stk.Dir)
 	rt.E = w
 	defer func() { rt.E = nil }()
 	w.Atomic = true
 	model := refdb.New()
 	viol := func(sig, msg string) {
-		res.violate(sig, fmt.Sprintf("stack %v (per table, per ref a/b: 0 none, 1/2 entry, 3 tombstone of the previous entry) expiry{Time:%d Max:%d Min:%d}: %s", c.Tables, c.Expiry[0], c.Expiry[1], c.Expiry[2], msg), c)
+		res.violate(sig, fmt.Sprintf("stack %v (per table, per ref a/b: 0 none, 1/2 entry, 3 tombstone of the previous entry) sha256=%v exact-messages=%v expiry{Time:%d Max:%d Min:%d}: %s", c.Tables, c.SHA256, c.Exact, c.Expiry[0], c.Expiry[1], c.Expiry[2], msg), c)
 	}
 	w.As(0, func() error {
 		st, err := reftable.NewStack(stk.Dir, cfg)
@@ -84,7 +90,7 @@ func run13(c *case13, res *result) {
 				viol("expiry:setup-add-fails", err.Error())
 				return nil
 			}
-			refs, logs := x.Records(ui, hs, false)
+			refs, logs := x.Records(ui, hs, c.Exact)
 			for _, r := range refs {
 				model.PutRef(r)
 			}
@@ -173,13 +179,18 @@ func runC13(tier string, wi, wn int, res *result) {
 	stacks = append(stacks, [][2]int{}) // the empty stack: expiry must be a no-op, not a failure
 	timesL := []uint64{0, 5, 10, 15, 20, 25, 30, 35, 40}
 	idxL := []uint64{0, 1, 2, 3, 4, 7}
-	shas := []bool{false}
+	// variants: (sha256, exact messages). quick: sha1 on every stack, exact messages on stacks of at most two tables
+	type variant struct{ sha, exact bool }
+	variants := []variant{{false, false}, {false, true}}
 	if !quick {
-		shas = []bool{false, true}
+		variants = []variant{{false, false}, {true, false}, {false, true}}
 	}
 	unit := 0
-	for _, sha := range shas {
+	for _, vr := range variants {
 		for _, s := range stacks {
+			if quick && vr.exact && len(s) > 2 {
+				continue
+			}
 			unit++
 			if (unit-1)%wn != wi {
 				continue
@@ -188,7 +199,7 @@ func runC13(tier string, wi, wn int, res *result) {
 			for _, tm := range timesL {
 				for _, mx := range idxL {
 					for _, mn := range idxL {
-						c := &case13{Tables: s, Expiry: [3]uint64{tm, mx, mn}, SHA256: sha}
+						c := &case13{Tables: s, Expiry: [3]uint64{tm, mx, mn}, SHA256: vr.sha, Exact: vr.exact}
 						res.Transitions++
 						res.Histories++
 						run13(c, res)
